@@ -1,6 +1,6 @@
 /* C12: keys derive only from seed and template; objects stay bound and reclaimable. */
 typedef struct { Buf pub; const char *name; int heavy; } C12T;
-static C12T c12_t[8]; static int c12_nt;
+static C12T c12_t[8]; static int c12_nt;   /* 0-4 light templates, 5 RSA, 6 derivation parent */
 static void c12_templates(void) {
     c12_nt = 0;
     for (int i = 0; i < 8; i++) b_reset(&c12_t[i].pub);
@@ -14,8 +14,10 @@ static void c12_templates(void) {
     { Buf *t = &c12_t[c12_nt].pub; b_u16(t, 0x0023); b_u16(t, ALG_SHA256); b_u32(t, 0x00030472u); b_u16(t, 0); b_u16(t, 0x0006); b_u16(t, 128); b_u16(t, 0x0043); b_u16(t, ALG_NULL); b_u16(t, 0x0003); b_u16(t, ALG_NULL); b_u16(t, 0); b_u16(t, 0); c12_t[c12_nt++].name = "p256-storage"; }
     /* 4: ECC P-384 ECDSA signing key */
     { Buf *t = &c12_t[c12_nt].pub; b_u16(t, 0x0023); b_u16(t, 0x000C); b_u32(t, 0x00040472u); b_u16(t, 0); b_u16(t, ALG_NULL); b_u16(t, 0x0018); b_u16(t, 0x000C); b_u16(t, 0x0004); b_u16(t, ALG_NULL); b_u16(t, 0); b_u16(t, 0); c12_t[c12_nt++].name = "p384-sign"; }
+    /* 6 (index 5 below is RSA): keyedhash derivation parent (restricted decrypt, XOR with SHA-256 and KDF1_SP800_108) — placed after the RSA template */
     /* 5: RSA-2048 storage key */
     { Buf *t = &c12_t[c12_nt].pub; b_u16(t, 0x0001); b_u16(t, ALG_SHA256); b_u32(t, 0x00030472u); b_u16(t, 0); b_u16(t, 0x0006); b_u16(t, 128); b_u16(t, 0x0043); b_u16(t, ALG_NULL); b_u16(t, 2048); b_u32(t, 0); b_u16(t, 0); c12_t[c12_nt].heavy = 1; c12_t[c12_nt++].name = "rsa2048-storage"; }
+    { Buf *t = &c12_t[c12_nt].pub; b_u16(t, ALG_KEYEDHASH); b_u16(t, ALG_SHA256); b_u32(t, 0x00030472u); b_u16(t, 0); b_u16(t, ALG_XOR); b_u16(t, ALG_SHA256); b_u16(t, 0x0022); b_u16(t, 0); c12_t[c12_nt].heavy = 2; c12_t[c12_nt++].name = "derivation-parent"; }
 }
 typedef struct { uint32_t h; int hier, t; uint8_t name[70]; int nl; } C12Obj;
 static const uint32_t C12_H[4] = { RH_OWNER, RH_ENDORSEMENT, RH_PLATFORM, RH_NULL };
@@ -33,6 +35,29 @@ static uint32_t c12_primary(Buf *b, int hier, int t, C12Obj *o, const char *why)
 static void c12_flush(Buf *b, uint32_t h) { if (h) { cmd_begin(b, ST_NO_SESSIONS, CC_FlushContext); b_u32(b, h); run(b); } }
 
 
+/* CreateLoaded: on a hierarchy it is CreatePrimary; under a derivation parent the child follows from the parent's secret, label and context alone */
+static void c12_createloaded(Buf *b) {
+    int hier = rnd(4);
+    if (chance(40)) {
+        int t = rnd(5);
+        cmd_begin(b, ST_SESSIONS, 0x191 /* CreateLoaded */); b_u32(b, C12_H[hier]); auth_pw(b, "", 0); b_u16(b, 4); b_u16(b, 0); b_u16(b, 0); b_2b(b, c12_t[t].pub.p, c12_t[t].pub.n);
+        Rsp r = run(b);
+        tr_begin("primary why=createloaded hier=%d t=%d rc=%u", hier, t, r.rc);
+        if (r.rc == 0) { uint32_t h = g32(r.p + 10); Rd rd = rsp_params(&r, 1); uint16_t l, pl; r_2b(&rd, &l); const uint8_t *pub = r_2b(&rd, &pl); const uint8_t *nm = r_2b(&rd, &l);
+            if (!rd.err) { trhex("pub", pub, pl); trhex("name", nm, l); } tr_end(); c12_flush(b, h); } else tr_end();
+        return; }
+    C12Obj par; uint32_t ph = c12_primary(b, hier, 6, &par, "derivation-parent"); if (!ph) return;
+    int v = rnd(3); const char *label = v == 2 ? "L1" : "L0", *ctx = v == 1 ? "C1" : "C0";
+    Buf t = {0}; b_u16(&t, ALG_KEYEDHASH); b_u16(&t, ALG_SHA256); b_u32(&t, 0x00040452u); b_u16(&t, 0); b_u16(&t, ALG_HMAC); b_u16(&t, ALG_SHA256); b_2b(&t, label, 2); b_2b(&t, ctx, 2);
+    for (int rep = 0; rep < 2; rep++) {
+        cmd_begin(b, ST_SESSIONS, 0x191); b_u32(b, ph); auth_pw(b, "", 0); b_u16(b, 4); b_u16(b, 0); b_u16(b, 0); b_2b(b, t.p, t.n);
+        Rsp r = run(b);
+        tr_begin("primary why=derived hier=%d t=%d rc=%u", hier, 20 + v, r.rc);
+        if (r.rc == 0) { uint32_t h = g32(r.p + 10); Rd rd = rsp_params(&r, 1); uint16_t l, pl; r_2b(&rd, &l); const uint8_t *pub = r_2b(&rd, &pl); const uint8_t *nm = r_2b(&rd, &l);
+            if (!rd.err) { trhex("pub", pub, pl); trhex("name", nm, l); } tr_end(); c12_flush(b, h); } else tr_end();
+        if (chance(60)) break; }
+    b_free(&t); c12_flush(b, ph);
+}
 /* Duplicate + Import: a key leaves parent A for parent B; the imported blob loads under B only and only unmodified */
 static void c12_dup_import(Buf *b) {
     C12Obj pa, pb; int ha = rnd(3), hb = (ha + 1 + rnd(2)) % 3;
@@ -89,7 +114,7 @@ static void scen_c12(int histories, int rounds, int thorough) {
             uint32_t h2 = c12_primary(&b, 3, t, NULL, "null-after"); c12_flush(&b, h2); }
         for (int i = 0; i < rounds; i++) {
             int op = rnd(100);
-            if (op < 45) { int t = rnd(c12_nt); if (c12_t[t].heavy) { if (!heavy_budget) t = rnd(5); else heavy_budget--; }
+            if (op < 45) { int t = rnd(c12_nt); if (c12_t[t].heavy == 2) t = rnd(5); if (c12_t[t].heavy) { if (!heavy_budget) t = rnd(5); else heavy_budget--; }
                 uint32_t h = c12_primary(&b, rnd(4), t, NULL, "random"); c12_flush(&b, h); }
             else if (op < 60) { /* restart of every kind */
                 int sd = rnd(3); Rsp s = {0}; if (sd) s = tpm2_shutdown(&b, sd == 2 ? 1 : 0);
@@ -124,7 +149,7 @@ static void scen_c12(int histories, int rounds, int thorough) {
                         tr_begin("load what=%s rc=%u", what, lr.rc); trhex("pub", pub, pul); if (lr.rc == 0) { uint16_t nl = g16(lr.p + 18); trhex("name", lr.p + 20, nl); c12_flush(&b, g32(lr.p + 10)); } tr_end();
                         c12_flush(&b, oh); } }
                 c12_flush(&b, ph); }
-            else if (op < 93) { /* persistent object */
+            else if (op < 91) { /* persistent object */
                 if (!evict) { C12Obj o; int hier = rnd(2) * 2; uint32_t h = c12_primary(&b, hier, rnd(5), &o, "to-evict"); if (!h) continue;
                     uint32_t ph = hier == 2 ? 0x81800001u : 0x81000001u;
                     cmd_begin(&b, ST_SESSIONS, CC_EvictControl); b_u32(&b, hier == 2 ? RH_PLATFORM : RH_OWNER); b_u32(&b, h); auth_pw(&b, "", 0); b_u32(&b, ph); Rsp r = run(&b);
@@ -132,8 +157,9 @@ static void scen_c12(int histories, int rounds, int thorough) {
                 else if (chance(40)) { cmd_begin(&b, ST_SESSIONS, CC_EvictControl); b_u32(&b, evict_hier == 2 ? RH_PLATFORM : RH_OWNER); b_u32(&b, evict); auth_pw(&b, "", 0); b_u32(&b, evict); Rsp r = run(&b);
                     tr("evict on=0 hier=%d handle=%u rc=%u", evict_hier, evict, r.rc); if (r.rc == 0) evict = 0; }
                 (void)evict_t; }
-            else if (op < 94 && chance(50)) c12_dup_import(&b);
-            else if (op < 97) { /* every transient slot is reclaimable */
+            else if (op < 93) c12_dup_import(&b);
+            else if (op < 96) c12_createloaded(&b);
+            else if (op < 98) { /* every transient slot is reclaimable */
                 uint32_t hs[16]; int n = 0; for (; n < 16; n++) { hs[n] = c12_primary(&b, 0, 0, NULL, "fill"); if (!hs[n]) break; }
                 for (int q = 0; q < n; q++) c12_flush(&b, hs[q]);
                 int n2 = 0; for (; n2 < 16; n2++) { hs[n2] = c12_primary(&b, 0, 2, NULL, "refill"); if (!hs[n2]) break; }
